@@ -11,6 +11,7 @@ import (
 	"math/big"
 	"sort"
 	"strings"
+	"sync"
 )
 
 type Mode struct {
@@ -69,6 +70,7 @@ type Ptr struct {
 	Idx   string      // pElem: absolute index into the backing array
 	BaseT types.Type  // type of the value stored at the base location
 	Path  []PathElem  // projection into the base value
+	G     interface{} // *ssa.Global for package-level variables
 }
 
 type Ctx struct {
@@ -86,6 +88,8 @@ type Ctx struct {
 	funDecls  map[string]bool
 	notes     map[string]bool // assumptions used (reported in evidence)
 	inQuant   int             // > 0 while translating the body of a quantifier
+	preOnce   sync.Once
+	preText   string
 }
 
 type structInfo struct {
@@ -135,6 +139,12 @@ func (c *Ctx) freshSort(prefix string, sort string) string {
 }
 
 func (c *Ctx) assume(fact string) {
+	if c.inQuant > 0 {
+		// facts derived under a binder would mention the bound variable; they are
+		// consequences (well-formedness, axiom instances), never definitions of
+		// fresh symbols (those are refused under a binder), so dropping is sound
+		return
+	}
 	if fact == "true" || fact == "" {
 		return
 	}
@@ -494,9 +504,9 @@ func (c *Ctx) wf(t types.Type, v string) string {
 		}
 		return "true"
 	case *types.Slice:
-		return sx("wf_slice", v, "$alloc")
+		return sx("wf_slice", v, "%%ALLOC%%")
 	case *types.Map, *types.Pointer, *types.Chan:
-		return and(sx("<=", "0", v), sx("<=", v, "$alloc"))
+		return and(sx("<=", "0", v), sx("<=", v, "%%ALLOC%%"))
 	case *types.Struct:
 		name := c.structSort(t)
 		var fs []string
@@ -510,13 +520,18 @@ func (c *Ctx) wf(t types.Type, v string) string {
 
 // wfAt is wf with an explicit allocation counter term.
 func (c *Ctx) wfAt(t types.Type, v string, alloc string) string {
-	return strings.ReplaceAll(c.wf(t, v), "$alloc", alloc)
+	return strings.ReplaceAll(c.wf(t, v), "%%ALLOC%%", alloc)
 }
 
 // ---------------------------------------------------------------------
 // preamble
 
 func (c *Ctx) preamble() string {
+	c.preOnce.Do(func() { c.preText = c.buildPreamble() })
+	return c.preText
+}
+
+func (c *Ctx) buildPreamble() string {
 	var b strings.Builder
 	b.WriteString("(set-logic ALL)\n")
 	b.WriteString("(declare-sort Str 0)\n")
